@@ -1,6 +1,6 @@
 (* C08ReadProofs.v — ReadData / CopyData: both modes return the file slice on every valid range. *)
 From V.lib Require Import Base.
-From V.c08 Require Import C08Model.
+From V.c08 Require Import C08Model C08Spec.
 
 (* ------------------------------------------------------------------ sub *)
 Lemma skipn_add {A} (a b : nat) (l : list A) : skipn (a + b) l = skipn b (skipn a l).
@@ -131,20 +131,6 @@ Proof.
   - assert (n = 0%Z) by lia. subst n. exists (rorc r). cbn. rewrite N.add_0_r. now destruct r.
   - apply copy_n_loop_ok; [exact H|lia].
 Qed.
-
-(* ------------------------------------------------------------------ valid ranges *)
-(* One mdat box at startPos (header 8 or 16 bytes, payloadLen payload bytes) lies inside the file;
-   positions fit Go's int64.  A valid range starts at a payload byte and ends at or before the
-   end of the payload (size 0 allowed at a payload byte). *)
-Definition hdr_len (large : bool) : N := if large then 16 else 8.
-
-Definition box_in_file (file : list N) (startPos : N) (large : bool) (payloadLen : N) : bool :=
-  (startPos + hdr_len large + payloadLen <=? lenN file) && (lenN file <? 9223372036854775808).
-
-Definition valid_range (startPos : N) (large : bool) (payloadLen : N) (start size : Z) : bool :=
-  let ps := Z.of_N (startPos + hdr_len large) in
-  ((ps <=? start) && (start <? ps + Z.of_N payloadLen) && (0 <=? size)
-   && (start + size <=? ps + Z.of_N payloadLen))%Z.
 
 Lemma mem_slice_ok strict file startPos large payloadLen start size :
   box_in_file file startPos large payloadLen = true ->
